@@ -362,6 +362,45 @@ impl Auto {
         out
     }
 
+    /// A step-wise iterator (for interleaving several searches on one automaton).
+    pub fn iter<'a>(&'a self, m: Method, hay: &'a [u8]) -> Box<dyn Iterator<Item = M> + 'a> {
+        fn cv<V: Copy + Into<u64>>(m: daachorse::Match<V>) -> M {
+            (m.start(), m.end(), m.value().into())
+        }
+        match self {
+            Auto::B(a) => match m {
+                Method::Find => Box::new(a.find_iter(hay).map(cv)),
+                Method::FindIt => Box::new(a.find_iter_from_iter(hay.iter().copied()).map(cv)),
+                Method::Ovl => Box::new(a.find_overlapping_iter(hay).map(cv)),
+                Method::OvlIt => {
+                    Box::new(a.find_overlapping_iter_from_iter(hay.iter().copied()).map(cv))
+                }
+                Method::NoSuf => Box::new(a.find_overlapping_no_suffix_iter(hay).map(cv)),
+                Method::NoSufIt => Box::new(
+                    a.find_overlapping_no_suffix_iter_from_iter(hay.iter().copied())
+                        .map(cv),
+                ),
+                Method::Lm => Box::new(a.leftmost_find_iter(hay).map(cv)),
+            },
+            Auto::C(a) => {
+                let s = as_str(hay);
+                match m {
+                    Method::Find => Box::new(a.find_iter(s).map(cv)),
+                    Method::FindIt => Box::new(unsafe { a.find_iter_from_iter(s.bytes()) }.map(cv)),
+                    Method::Ovl => Box::new(a.find_overlapping_iter(s).map(cv)),
+                    Method::OvlIt => {
+                        Box::new(unsafe { a.find_overlapping_iter_from_iter(s.bytes()) }.map(cv))
+                    }
+                    Method::NoSuf => Box::new(a.find_overlapping_no_suffix_iter(s).map(cv)),
+                    Method::NoSufIt => Box::new(
+                        unsafe { a.find_overlapping_no_suffix_iter_from_iter(s.bytes()) }.map(cv),
+                    ),
+                    Method::Lm => Box::new(a.leftmost_find_iter(s).map(cv)),
+                }
+            }
+        }
+    }
+
     pub fn raw(&self) -> RawAutomaton<u32> {
         match self {
             Auto::B(a) => a.verif_raw(),
